@@ -949,6 +949,40 @@ func (g *gen) whitespaceCases() []Case {
 	return cases
 }
 
+
+// integer folds with two different error conditions among their operands (a zero divisor and a
+// non-integer), the offending operand being a constant, a capture, or a (missing) function parameter:
+// the marker must not depend on what is constant. Modelled cases.
+func (g *gen) operandOrderCases() []Case {
+	r := g.r
+	bad := Pick(r, []string{"x", "1.5", `""`, "1e3", "--2"})
+	type oc struct{ funcs, tmpl, inl string }
+	list := []oc{
+		{"d {divi {0} {1} {2}}\n", "{d 1 0 " + bad + "}", "{divi 1 0 " + bad + "}"},
+		{"d {divi {0} {1} {2}}\n", "{d {0} 0 " + bad + "}", "{divi {0} 0 " + bad + "}"},
+		{"d {divi {0} {1} {2}}\n", "{d 10 {1}}", `{divi 10 {1} ""}`},
+		{"d {divi {0} {1} {2}}\n", "{d " + bad + " 0 1}", "{divi " + bad + " 0 1}"},
+		{"m {modi {1} {0} 3}\n", "{m 0 " + bad + "}", "{modi " + bad + " 0 3}"},
+		{"m {modi {1} {0} 3}\n", "{m 0}", `{modi "" 0 3}`},
+		{"u_0 {divi {maxi {1} 5} 42}val={divi {len 10} {len {0}} {multi -10 {1} -1}}\n", "{u_0 {1}}",
+			`{divi {maxi "" 5} 42}val={divi {len 10} {len {1}} {multi -10 "" -1}}`},
+		{"", "{divi 1 0 " + bad + "} {divi {0} 0 " + bad + "} {modi 5 {1} " + bad + "}", ""},
+		{"", "{divi " + bad + " 0 1} {modi {0} {1} " + bad + " 0} {sumi 1 " + bad + " {0}} {multi {0} " + bad + "}", ""},
+		{"", "{divi 8 {sumi 1 -1} " + bad + "}{divi 8 {if 1 0 {0}} {1}}", ""},
+	}
+	var cases []Case
+	for _, o := range list {
+		in := Input{Funcs: o.funcs, Tmpl: o.tmpl, Inl: o.inl, W: 2,
+			Ctxs: []Ctx{{M: []string{"6", "0", "2"}, K: map[string]string{}}, {M: []string{"", "3"}, K: map[string]string{}}, {M: []string{"x", "x"}, K: map[string]string{}}, {M: []string{}, K: map[string]string{}}}}
+		if in.Inl == "" {
+			in.Inl = in.Tmpl
+		}
+		cc := compileCase(in)
+		cases = append(cases, mkCase(in, cc.evalPlain(), true, []string{"operand-order", "kf:C10-int-operand-order"}))
+	}
+	return cases
+}
+
 // the rare binary: global switches x a funcs-file function whose body has an argument-free
 // sub-expression depending on that switch
 func (g *gen) eqCliCases() []Case {
@@ -1426,6 +1460,7 @@ func (g *gen) contexts(keys []string) []Ctx {
 }
 
 func classify(t []*Node, fns []ufn) (tags []string, nontrivial bool, timeInSub bool, forKey bool, constParam bool) {
+	ordKf := false
 	set := map[string]bool{}
 	bodies := map[string][]*Node{}
 	for _, f := range fns {
@@ -1449,6 +1484,30 @@ func classify(t []*Node, fns []ufn) (tags []string, nontrivial bool, timeInSub b
 				w := strings.ToLower(printSeq(n.Args[0]))
 				if (w == "live" || w == "delta") && (inSub || inB) {
 					timeInSub = true
+				}
+			}
+			if n.S == "divi" || n.S == "modi" || n.S == "sumi" || n.S == "subi" || n.S == "multi" || n.S == "maxi" || n.S == "mini" {
+				// an integer fold (divi / modi: two different markers; the others: look-ups before the marker) with an operand that is a constant other than an integer literal, or that
+				// mentions a parameter of the enclosing funcs-file function (constant or missing at the call)
+				for _, a := range n.Args {
+					dyn, lit := false, true
+					walk(a, false, func(m *Node, _ bool) {
+						if m.Op == "m" || m.Op == "k" {
+							dyn = true
+						}
+						if m.Op != "lit" {
+							lit = false
+						}
+					})
+					isInt := false
+					if lit {
+						var v int64
+						_, err := fmt.Sscanf(printSeq(a), "%d", &v)
+						isInt = err == nil && fmt.Sprint(v) == strings.TrimPrefix(printSeq(a), "+")
+					}
+					if (!dyn && !isInt) || (inSub && dyn) {
+						ordKf = true
+					}
 				}
 			}
 			if n.S == "@reduce" && len(n.Args) == 3 && inSub {
@@ -1496,6 +1555,9 @@ func classify(t []*Node, fns []ufn) (tags []string, nontrivial bool, timeInSub b
 		tags = append(tags, k)
 	}
 	sort.Strings(tags)
+	if ordKf {
+		tags = append(tags, "kf:C10-int-operand-order")
+	}
 	nontrivial = set["mixed-args"] || set["userfn"] || set["binder"]
 	return
 }
@@ -1627,6 +1689,7 @@ func c10Gen(r *Rng, n int, tier string) []Case {
 		nTimed = 40
 	}
 	cases = append(cases, g.whitespaceCases()...)
+	cases = append(cases, g.operandOrderCases()...)
 	cases = append(cases, g.eqLibCases()...)
 	cases = append(cases, g.eqSeqCases()...)
 	cases = append(cases, g.eqMathCases()...)
@@ -1664,6 +1727,7 @@ func main() {
 			"every template is compiled by funclib.NewKeyBuilderEx(true) and (false) and evaluated on 1-3 generated contexts plus the all-empty context with a look-up-counting context, then 3 rounds from each of 1-8 goroutines sharing the compiled expressions; " +
 			"timed cases ({time now|live|delta} plain, nested, inside a funcs-file function, inside @map) are evaluated twice 1.1 s apart and only 'did the value change' is observed. " +
 			"equality-only cases (no model prediction): 30 templates over helpers that are not modelled (time with auto-detected / given formats, buckettime, timeformat, durations, floats, format, @split/@join/@slice/@select/@range, paths, json, !, byte sizes, repeat/bar/color, lookup/load) with constant, dynamic and mixed text in the arguments and seeded dates/numbers: optimising builder = plain builder on every context, the all-empty one last; " +
+			"10 operand-order cases (divi / modi with a zero divisor and a non-integer operand, the offending operand a constant, a capture, or a present / missing parameter of a funcs-file function; sumi / multi for comparison), modelled: call = inlined body, optimising = plain; " +
 			"9 functions-file cases with significant white space (runs of 2-3 blanks and tabs in literal text and inside quoted arguments, leading blanks after the name, blanks before a continuation backslash, a tab instead of the blank after the name), modelled: loader result, call and inlined body byte for byte; " +
 			"14 formula cases ({! ..}, one per operator * & && || + - / | % ^ == < >= <<): a constant operand written in the formula (0 1 2 0.5 (3-3) (0-1) (2*0) (1||0), on either side, bare or inside a larger formula) vs the same constant read from a group, for values of the variable among 5 -3 0 2.5 -0 empty missing text inf -inf nan 1e400, optimising and plain builder: all equal (compile-time folding must give the run-time value); " +
 			"18 sequence cases (time / buckettime / timeformat / timeattr with explicit format and time-zone arguments, named formats, a constant prefix plus a capture, a named key, nested in sumi/timeformat, durations, floats/json/format; 3 with the auto-detected layout): three evaluation sequences per template on ONE compiled expression - the all-empty context (the optimiser's probe value) first, unparseable values, the same value on consecutive evaluations, a bad value first, a seeded shuffle - step by step: optimising = plain = a fresh plain compile = a fresh optimising compile of that step (for the auto-detected layout, which is remembered by design, only optimising = plain); " +
